@@ -232,7 +232,7 @@ fn main() {
         "C42" => {
             // universes run one after the other; each uses up to 16 threads
             let t0 = Instant::now();
-            let budget = Duration::from_secs(args.by_tier(20, 240));
+            let budget = Duration::from_secs(args.by_tier(12, 240));
             let mut idx = 0usize;
             let mut rng = rng_for(args.seed, &[tag("C42")]);
             use rand::Rng;
